@@ -73,12 +73,15 @@ func runC18(c *Ctx) {
 	uses := map[string][]string{}
 	for _, fi := range c.P.Funcs() {
 		info := fi.Pkg.TypesInfo
-		ast.Inspect(fi.Decl.Body, func(x ast.Node) bool {
-			if id, ok := x.(*ast.Ident); ok && info.Uses[id] == marker {
-				uses[fi.Obj.Name()] = append(uses[fi.Obj.Name()], c.P.Pos(id.Pos()))
-			}
-			return true
-		})
+		// the function's own body and the bodies of the helpers expanded into it
+		for _, bd := range c.E.FnOf(fi).Bodies() {
+			ast.Inspect(bd, func(x ast.Node) bool {
+				if id, ok := x.(*ast.Ident); ok && info.Uses[id] == marker {
+					uses[fi.Obj.Name()] = append(uses[fi.Obj.Name()], c.P.Pos(id.Pos()))
+				}
+				return true
+			})
+		}
 	}
 	for _, want := range []string{"Upgrade", "ListRevisions", "shouldSyncLabels"} {
 		c.Check(len(uses[want]) > 0, "C18.3-marker-agreement", want+": uses helper.UpgradeToAdvancedStatefulSetAnn", 0, "refers to the one marker constant", want+" does not use the shared upgrade-marker constant: writer and reader can disagree")
@@ -102,8 +105,8 @@ func runC18(c *Ctx) {
 		c.Check(ok, "C18.3-marker-value", "ListRevisions: marker selector value", lr.Decl.Pos(), "selects marker == set.Name, the value the upgrade helper writes", "the lister does not select the marker by the set's name")
 		// the selector feeds a List call
 		nList := 0
-		for _, s := range c.G.Sites {
-			if s.Fn == lr.Obj && s.Resource == "controllerrevisions" && s.Verb == "List" {
+		for _, s := range c.sitesOf(lr) {
+			if s.Resource == "controllerrevisions" && s.Verb == "List" {
 				nList++
 			}
 		}
